@@ -141,7 +141,7 @@ func runConcurrent(rep *vh.Report, env vh.Env, stacks []*stack, only int) {
 			k = 3
 		}
 		sameEmail := r.Intn(2) == 0
-		endpoint := map[string]string{"validate": "introspect", "refresh": "refresh"}[path]
+		endpoint := map[string]string{"validate": st.valEndpoint(), "refresh": "refresh"}[path]
 		tag := fmt.Sprintf("d%d", i)
 
 		var related []string
@@ -197,20 +197,23 @@ func runConcurrent(rep *vh.Report, env vh.Env, stacks []*stack, only int) {
 				m.sess.RefreshDeadline = now.Add(time.Duration(5+r.Intn(50)) * time.Minute).Truncate(time.Second)
 				m.key = m.sess.AccessToken
 				if live[j] {
-					ans, ansName = introspectAnswer(r.Intn(2)), "active-true"
+					ans, ansName = validateAnswer(st.prov, r.Intn(2), email), "200-valid"
 				} else {
-					c := []int{2, 3, 5}[r.Intn(3)]
-					ans, ansName = introspectAnswer(c), introspectClasses[c].name
+					c := []int{vcls("400-revoked"), vcls("401"), vcls("400-other")}[r.Intn(3)]
+					if st.prov == "okta" && r.Intn(2) == 0 {
+						c = vcls("200-negative-body")
+					}
+					ans, ansName = validateAnswer(st.prov, c, email), validateClasses[c].name
 				}
 			} else {
 				m.sess.AccessToken, m.sess.RefreshToken = jwtLike(r, 200+r.Intn(300)), related[j]
 				m.sess.RefreshDeadline = now.Add(-time.Duration(2+r.Intn(100)) * time.Minute).Truncate(time.Second)
 				m.key = m.sess.RefreshToken
 				if live[j] {
-					ans, ansName = refreshAnswer(r.Intn(2), m.newTok, "nrt-"+tag, 3600), "200-new-token"
+					ans, ansName = refreshAnswer(st.prov, r.Intn(2), m.newTok, "nrt-"+tag, 3600), "200-new-token"
 				} else {
-					c := []int{2, 3, 5}[r.Intn(3)]
-					ans, ansName = refreshAnswer(c, m.newTok, "", 3600), refreshClasses[c].name
+					c := []int{rcls("400-revoked"), rcls("400-other"), rcls("500")}[r.Intn(3)]
+					ans, ansName = refreshAnswer(st.prov, c, m.newTok, "", 3600), refreshClasses[c].name
 				}
 			}
 			ans.Hold = m.hold
@@ -284,7 +287,7 @@ func runConcurrent(rep *vh.Report, env vh.Env, stacks []*stack, only int) {
 				return
 			}
 		}
-		rep.Distinct(fmt.Sprintf("D|%s|%s|%s|k%d|%v|%s", st.kind, path, rel, k, live, fmtBool(sameEmail, "same-email", "other-email")))
+		rep.Distinct(fmt.Sprintf("D|%s|%s|%s|%s|k%d|%v|%s", st.prov, st.kind, path, rel, k, live, fmtBool(sameEmail, "same-email", "other-email")))
 		rep.Count("concurrent_groups", 1)
 		for j, m := range ms {
 			rs := m.rs
@@ -321,13 +324,13 @@ func runConcurrent(rep *vh.Report, env vh.Env, stacks []*stack, only int) {
 			}
 			if v, set, cleared := rs.Cookie(as.CookieName); set && !cleared {
 				if ns := as.OpenCookie(v); ns == nil || ns.Email != m.sess.Email || (issued && ns.AccessToken != wantTok) || ns.LifetimeDeadline.After(m.sess.LifetimeDeadline) {
-					rep.Violate(streamConcurrent, i, "sign_in: reissued-cookie-cross-talk path="+path+" concurrent=true",
+					st.violate(rep, streamConcurrent, i, "sign_in: reissued-cookie-cross-talk path="+path+" concurrent=true",
 						"the re-issued cookie does not carry the requester's own e-mail / confirmed token / lifetime; "+detailOf(j), kc)
 				}
 			}
 			if !issued {
 				if carriesCode(as, rs.Location(), string(rs.Body)) || mentionsCodeParam(rs.Location(), string(rs.Body)) {
-					rep.Violate(streamConcurrent, i, "sign_in: code-outside-302-redirect concurrent=true", "a refusal carries a code; "+detailOf(j), kc)
+					st.violate(rep, streamConcurrent, i, "sign_in: code-outside-302-redirect concurrent=true", "a refusal carries a code; "+detailOf(j), kc)
 				}
 				if live[j] {
 					rep.Count("concurrent_refused_although_allowed", 1) // one-directional: not judged
@@ -342,22 +345,22 @@ func runConcurrent(rep *vh.Report, env vh.Env, stacks []*stack, only int) {
 			}
 			switch {
 			case !confirmedCall && (len(calls[j]) == 0 || live[j]):
-				rep.Violate(streamConcurrent, i, "sign_in: code-issued-without-idp-confirmation path="+path+" concurrent=true",
+				st.violate(rep, streamConcurrent, i, "sign_in: code-issued-without-idp-confirmation path="+path+" concurrent=true",
 					"code issued although the IdP's log shows no confirming "+endpoint+" call for THIS session's token (its check was answered by another session's call); "+detailOf(j), kc)
 				continue
 			case !live[j]:
-				rep.Violate(streamConcurrent, i, "sign_in: code-issued failing="+path+"-not-confirmed concurrent=true",
+				st.violate(rep, streamConcurrent, i, "sign_in: code-issued failing="+path+"-not-confirmed concurrent=true",
 					"code issued although the IdP refused this session's token; "+detailOf(j), kc)
 				continue
 			}
 			rep.Count("concurrent_code_via_"+path, 1)
 			cs := as.OpenCode(code)
 			if cs == nil || cs.Email != m.sess.Email || cs.AccessToken != wantTok || cs.RefreshToken != m.sess.RefreshToken {
-				rep.Violate(streamConcurrent, i, "sign_in: code-cross-talk path="+path+" concurrent=true",
+				st.violate(rep, streamConcurrent, i, "sign_in: code-cross-talk path="+path+" concurrent=true",
 					"the code's session does not carry the requester's own e-mail and the token the IdP confirmed for it; "+detailOf(j), kc)
 			}
 			if lu == nil || lu.Query().Get("state") != m.state || lu.Host != fmt.Sprintf("app%d.sso.test", j) {
-				rep.Violate(streamConcurrent, i, "sign_in: redirect-cross-talk concurrent=true", "state / redirect host of another request came back; "+detailOf(j), kc)
+				st.violate(rep, streamConcurrent, i, "sign_in: redirect-cross-talk concurrent=true", "state / redirect host of another request came back; "+detailOf(j), kc)
 			}
 		}
 	})
